@@ -30,6 +30,13 @@ def dispatch (inform : String) (pemType : Option String) (b64ok : Bool) : Dispat
   else if inform == "base64" then (if b64ok then .cert else .fail)
   else .fail
 
+/-- a PEM input as the sequence of its blocks (type, DER bytes): `pem.Decode` reads the first block, the rest of the input is
+    ignored — the linted object is the first block's, whatever follows it -/
+def dispatchBlocks (blocks : List (String × List Nat)) : Dispatch × List Nat :=
+  match blocks with
+  | [] => (.fail, [])
+  | (t, der) :: _ => (dispatch "pem" (some t) false, der)
+
 /-- `trimmedList` -/
 def isBlankC (c : Char) : Bool := c == ' ' || c == '\t' || c == '\n' || c == '\r'
 def trimS (s : String) : String := String.ofList ((s.toList.dropWhile isBlankC).reverse.dropWhile isBlankC).reverse
